@@ -46,3 +46,8 @@ Proof.
   intros a Ha. rewrite forallb_forall in H. exact (H a Ha).
 Qed.
 Print Assumptions C12_waitgroup_add_sites.
+
+(* the rule is not vacuous: the table does contain a wg.Add site (registerSession), and it satisfies it *)
+Example C12_add_site_exists :
+  existsb (fun a => String.eqb (ac_field a) "wg" && String.eqb (ac_kind a) "call:Add" && wg_add_site_ok a) gen_accesses = true.
+Proof. vm_compute. reflexivity. Qed.
